@@ -43,11 +43,15 @@ func (c *accComp) Account() *accountdata.AccountKeys {
 	return &accountdata.AccountKeys{PeerId: c.peerId}
 }
 
-type srcComp struct{}
+// source of configuration updates: hands out [next] to a service whose current configuration has another id
+type srcComp struct{ next *nodeconf.Configuration }
 
 func (c *srcComp) Init(a *app.App) error { return nil }
 func (c *srcComp) Name() string          { return nodeconf.CNameSource }
 func (c *srcComp) GetLast(ctx context.Context, cur string) (nodeconf.Configuration, error) {
+	if c.next != nil && cur != c.next.Id {
+		return *c.next, nil
+	}
 	return nodeconf.Configuration{}, nodeconf.ErrConfigurationNotChanged
 }
 
@@ -68,12 +72,46 @@ func (c *coordComp) IsNetworkNeedsUpdate(ctx context.Context) (bool, error) {
 	return false, nil
 }
 
-func newService(cfg nodeconf.Configuration, self string) (svc nodeconf.Service, err error) {
+// newService builds a real nodeconf service for participant [self].
+// viaUpdate = false: the configuration is the initial one (Init -> setLastConfiguration).
+// viaUpdate = true : the service starts from a DIFFERENT configuration (other id, nodes reversed, first node
+// turned into a file node) and receives [cfg] through the periodic update path
+// (Run -> updateConfiguration -> source.GetLast -> saveAndSetLastConfiguration -> setLastConfiguration).
+func newService(cfg nodeconf.Configuration, self string, viaUpdate bool) (svc nodeconf.Service, err error) {
 	a := new(app.App)
 	svc = nodeconf.New()
-	a.Register(&confComp{cfg}).Register(&accComp{self}).Register(&srcComp{}).Register(&storeComp{}).
+	initial := cfg
+	src := &srcComp{}
+	if viaUpdate {
+		old := nodeconf.Configuration{Id: "verif-old", NetworkId: cfg.NetworkId}
+		for i := len(cfg.Nodes) - 1; i >= 0; i-- {
+			old.Nodes = append(old.Nodes, cfg.Nodes[i])
+		}
+		if len(old.Nodes) > 0 {
+			n := old.Nodes[0]
+			n.Types = []nodeconf.NodeType{nodeconf.NodeTypeFile}
+			old.Nodes[0] = n
+		}
+		initial = old
+		src.next = &cfg
+	}
+	a.Register(&confComp{initial}).Register(&accComp{self}).Register(src).Register(&storeComp{}).
 		Register(&coordComp{}).Register(svc)
-	err = svc.Init(a)
+	if err = svc.Init(a); err != nil || !viaUpdate {
+		return
+	}
+	if err = svc.Run(context.Background()); err != nil {
+		return
+	}
+	deadline := time.Now().Add(10 * time.Second)
+	for svc.Id() != cfg.Id {
+		if time.Now().After(deadline) {
+			_ = svc.Close(context.Background())
+			return nil, fmt.Errorf("configuration update was not applied within 10 s (still %q)", svc.Id())
+		}
+		time.Sleep(200 * time.Microsecond)
+	}
+	err = svc.Close(context.Background())
 	return
 }
 
@@ -91,6 +129,7 @@ type confDesc struct {
 	Client  string     `json:"client"`
 	Spaces  []string   `json:"spaces"`
 	TableOf int        `json:"table_of"` // index into participants whose partition table is recorded
+	Update  uint64     `json:"via_update"` // bit k set: participant k receives the configuration through the update path
 	Note    string     `json:"note,omitempty"`
 	Obs     string     `json:"observed,omitempty"`
 }
@@ -252,7 +291,7 @@ func (r *runner) doConf(d confDesc) {
 					err = fmt.Errorf("panic: %v", rec)
 				}
 			}()
-			svc, err = newService(cfg, p)
+			svc, err = newService(cfg, p, d.Update>>(uint(len(insts))%60)&1 == 1)
 		}()
 		if err != nil {
 			w.Violation(caseIdx, "C18-init-failed", "nodeconf service Init failed or panicked for a generated configuration: "+err.Error(), d)
@@ -260,6 +299,11 @@ func (r *runner) doConf(d confDesc) {
 			// still emit a (trivially empty) case so that the index exists
 			w.Add("(CChash [] 0 [] [] [])%uint63", d, "", false)
 			return
+		}
+		if d.Update>>(uint(len(insts))%60)&1 == 1 {
+			w.Stat("participant_via_update_path")
+		} else {
+			w.Stat("participant_via_init")
 		}
 		insts = append(insts, inst{p, svc})
 	}
@@ -605,7 +649,7 @@ func genConf(r *vlib.Rand, nTree, nOther int, dup bool) confDesc {
 	for j, k := range p {
 		sh[j] = nodes[k]
 	}
-	d := confDesc{Kind: "conf", Nodes: sh, Client: newId(), TableOf: r.Intn(64)}
+	d := confDesc{Kind: "conf", Nodes: sh, Client: newId(), TableOf: r.Intn(64), Update: r.U64() & r.U64()}
 	if dup {
 		d.Note = "a tree node is listed twice"
 	}
@@ -637,7 +681,7 @@ func genSpaces(r *vlib.Rand) []string {
 
 // a variant of a configuration that must yield the same answers: shuffled, other addresses, extra non-tree nodes
 func variantOf(r *vlib.Rand, d confDesc) confDesc {
-	v := confDesc{Kind: "conf", Client: d.Client, Spaces: d.Spaces, TableOf: r.Intn(64), Note: "variant (same tree-node set) of the previous configuration"}
+	v := confDesc{Kind: "conf", Client: d.Client, Spaces: d.Spaces, TableOf: r.Intn(64), Update: r.U64(), Note: "variant (same tree-node set) of the previous configuration"}
 	p := r.Perm(len(d.Nodes))
 	for _, k := range p {
 		n := d.Nodes[k]
@@ -716,6 +760,7 @@ func main() {
 	run := &runner{w: w}
 
 	if o.Replay != "" {
+		w.C18SetPerShard(3)
 		for _, raw := range vlib.ReadReplay(o.Replay) {
 			var k struct {
 				Kind string `json:"kind"`
@@ -745,17 +790,17 @@ func main() {
 	}
 
 	// configurations: sizes of the tree-node set
-	sizes := []int{0, 1, 2, 3, 5, 12}
+	sizes := []int{0, 1, 2, 3, 4, 6, 9}
 	nVariants := 1
 	if o.Tier == "thorough" {
 		sizes = nil
-		for rep := 0; rep < 6; rep++ {
+		for rep := 0; rep < 2; rep++ {
 			for n := 0; n <= 12; n++ {
 				sizes = append(sizes, n)
 			}
 		}
 		sizes = append(sizes, 16, 24, 32)
-		nVariants = 2
+		nVariants = 1
 	}
 	if v := os.Getenv("C18_SIZES"); v != "" { // measurement aid
 		sizes = nil
@@ -769,7 +814,7 @@ func main() {
 		for i, n := range sizes {
 			d := genConf(r.Fork(uint64(b*1000+i)), n, 1+r.Intn(4), false)
 			run.doConf(d)
-			if n >= 2 && n <= 5 || o.Tier == "thorough" {
+			if n >= 2 && n <= 4 || (o.Tier == "thorough" && n >= 2 && n <= 12) {
 				for v := 0; v < nVariants; v++ {
 					run.doConf(variantOf(r, d))
 				}
@@ -778,7 +823,7 @@ func main() {
 	}
 
 	// configurations that list a sync node twice
-	dupSizes := []int{2, 4}
+	dupSizes := []int{3}
 	if o.Tier == "thorough" {
 		dupSizes = []int{1, 2, 3, 4, 5, 6, 8, 12}
 	}
@@ -788,9 +833,9 @@ func main() {
 		}
 	}
 	w.C18SetPerShard(300)
-	nChash := 1200
+	nChash := 900
 	if o.Tier == "thorough" {
-		nChash = 20000
+		nChash = 12000
 	}
 	nChash *= o.Budget
 	for k := 0; k < nChash; k++ {
